@@ -4,6 +4,7 @@ package main
 
 import (
 	"fmt"
+	"go/types"
 	"sort"
 	"strings"
 
@@ -323,6 +324,26 @@ func runC13(w *World, r *Report, tier string) {
 			bad = "PostConnect is never called after a reconnection"
 		}
 		r.Check(bad == "" && nLoop > 0 && nOK > 0 && nPerm > 0, "R5", "xmpp.(*StreamManager).resume#loop", w.ipos(rc), bad+fmt.Sprintf(" (retry paths %d, success exits %d, permanent exits %d)", nLoop, nOK, nPerm), fmt.Sprintf("%d retry path(s) through backoff.wait, %d success exit(s) with PostConnect after the loop, %d exit(s) on a permanent error", nLoop, nOK, nPerm))
+	}
+	// the error classification reads the Permanent flag of the very type NewConnError returns
+	{
+		ncT := w.Func("xmpp.NewConnError").Signature.Results().At(0).Type()
+		asCalls := w.callsIn(res, "golang.org/x/xerrors.As", "errors.As")
+		okAs := len(asCalls) == 1
+		detail := fmt.Sprintf("%d xerrors.As calls", len(asCalls))
+		if okAs {
+			tgt := asCalls[0].Common().Args[1]
+			if mi, ok := tgt.(*ssa.MakeInterface); ok {
+				tgt = mi.X
+			}
+			pt, isPtr := tgt.Type().Underlying().(*types.Pointer)
+			if !isPtr || !types.Identical(pt.Elem(), ncT) {
+				okAs = false
+				detail = fmt.Sprintf("xerrors.As looks for a %s in the error chain, but NewConnError returns a %s: the target never matches, the Permanent branch is dead and a permanent error is retried for ever", w.typeStr(tgt.Type()), w.typeStr(ncT))
+			}
+			// every ConnError handed to callers is that type (value), not a pointer to it
+		}
+		r.Check(okAs, "R5", "xmpp.(*StreamManager).resume#error-classification", w.pos(res.Pos()), detail, "xerrors.As(err, *ConnError) — the type NewConnError returns")
 	}
 	// sm.connect: PostConnect once after Connect()==nil
 	smc := w.Func("xmpp.(*StreamManager).connect")
